@@ -724,8 +724,189 @@ fn migration_stage(cfg: &RunCfg, agg: &Mutex<Agg>) {
     agg.lock().unwrap().absorb("migration", 0, o);
 }
 
+// ======================================================================
+// Lifecycle churn (in-process stage): many threads construct, grow, shrink,
+// hand over and drop their own encoders and decoders as fast as they can -
+// working spaces from a few KiB to 8 MiB - with a checked round trip now and
+// then. Whatever the objects share behind the scenes (tables, caches, pools)
+// is hit by construction and destruction from all threads at once. A panic or
+// an error on any thread, or a wrong result, is a violation; the step cap is
+// logical, the time cap only ends the stage early.
+
+fn churn_config(rng: &mut Rng) -> (crate::codec::Api, usize, usize, usize) {
+    use crate::codec::{Api, EngineKind, RateKind};
+    let (k, r) = *rng.pick(&[(1usize, 1usize), (2, 3), (8, 8), (16, 16), (64, 64), (100, 30), (30, 100), (200, 200), (1000, 24)]);
+    let api = match rng.below(4) {
+        0 => Api::Wrapper,
+        1 => Api::Rate(RateKind::High, *rng.pick(&EngineKind::fast())),
+        2 => Api::Rate(RateKind::Low, *rng.pick(&EngineKind::fast())),
+        _ => Api::Rate(RateKind::Default, EngineKind::Default),
+    };
+    // decoder working space = positions x shard size, log-uniform in 4 KiB .. 8 MiB
+    let positions = (k + r).next_power_of_two();
+    let space = 1usize << rng.range(12, 23);
+    let size = ((space / positions) & !1).clamp(2, 1 << 20) + 2 * rng.below(3);
+    (api, k, r, size)
+}
+
+fn churn_stage(cfg: &RunCfg, agg: &Mutex<Agg>) {
+    use crate::codec;
+    if !cfg.stage_enabled("churn") || (cfg.only_case.is_some() && cfg.only_stage.as_deref() != Some("churn")) {
+        return;
+    }
+    let threads = 12usize;
+    let iters = crate::count(cfg, 700, 12_000) as usize;
+    let deadline = Instant::now() + Duration::from_secs(if cfg.thorough { 120 } else { 25 });
+    let out = Mutex::new(CaseOut::default());
+    let (made, resets, dropped, rounds) = (AtomicU64::new(0), AtomicU64::new(0), AtomicU64::new(0), AtomicU64::new(0));
+    let big = AtomicU64::new(0);
+    let stop = std::sync::atomic::AtomicBool::new(false);
+    let start = Barrier::new(threads);
+    let base = mix(cfg.seed, 0xC4024);
+    std::thread::scope(|s| {
+        for t in 0..threads {
+            let (out, made, resets, dropped, rounds, big, stop, start) = (&out, &made, &resets, &dropped, &rounds, &big, &stop, &start);
+            s.spawn(move || {
+                let mut rng = Rng::new(mix(base, t as u64));
+                type Cfg = (codec::Api, usize, usize, usize);
+                let mut enc: Option<(Box<dyn codec::DynEnc + Send>, Cfg)> = None;
+                let mut dec: Option<(Box<dyn codec::DynDec + Send>, Cfg)> = None;
+                let mut trail: Vec<String> = Vec::new();
+                start.wait();
+                for it in 0..iters {
+                    if stop.load(Ordering::Relaxed) || Instant::now() > deadline {
+                        break;
+                    }
+                    let res = crate::util::guarded(|| -> Result<(), String> {
+                        let c = churn_config(&mut rng);
+                        let (api, k, r, size) = c;
+                        if (k + r).next_power_of_two() * size >= 1 << 20 {
+                            big.fetch_add(1, Ordering::Relaxed);
+                        }
+                        let op = rng.below(7);
+                        trail.push(format!("{}:{}({k},{r},{size})", ["new-enc", "new-dec", "reset-enc", "reset-dec", "drop", "handover-dec", "handover-enc"][op], api.name()));
+                        match op {
+                            0 => {
+                                enc = Some((codec::make_enc(api, k, r, size, None).map_err(|e| format!("new: {e:?}"))?, c));
+                                made.fetch_add(1, Ordering::Relaxed);
+                            }
+                            1 => {
+                                dec = Some((codec::make_dec(api, k, r, size, None).map_err(|e| format!("new: {e:?}"))?, c));
+                                made.fetch_add(1, Ordering::Relaxed);
+                            }
+                            2 | 3 => {
+                                // reset keeps the object's API; take a configuration it supports
+                                if op == 2 {
+                                    if let Some((e, ec)) = enc.as_mut() {
+                                        if let codec::Api::Rate(rate, _) = ec.0 {
+                                            if !crate::gen::rate_ok(rate, k, r) {
+                                                return Ok(());
+                                            }
+                                        }
+                                        e.reset(k, r, size).map_err(|e| format!("reset: {e:?}"))?;
+                                        *ec = (ec.0, k, r, size);
+                                        resets.fetch_add(1, Ordering::Relaxed);
+                                    }
+                                } else if let Some((d, dc)) = dec.as_mut() {
+                                    if let codec::Api::Rate(rate, _) = dc.0 {
+                                        if !crate::gen::rate_ok(rate, k, r) {
+                                            return Ok(());
+                                        }
+                                    }
+                                    d.reset(k, r, size).map_err(|e| format!("reset: {e:?}"))?;
+                                    *dc = (dc.0, k, r, size);
+                                    resets.fetch_add(1, Ordering::Relaxed);
+                                }
+                            }
+                            4 => {
+                                if rng.chance(1, 2) {
+                                    enc = None;
+                                } else {
+                                    dec = None;
+                                }
+                                dropped.fetch_add(1, Ordering::Relaxed);
+                            }
+                            5 => {
+                                let work = dec.take().and_then(|(d, _)| d.into_work());
+                                dec = Some((codec::make_dec(api, k, r, size, work).map_err(|e| format!("new with work: {e:?}"))?, c));
+                                made.fetch_add(1, Ordering::Relaxed);
+                            }
+                            _ => {
+                                let work = enc.take().and_then(|(e, _)| e.into_work());
+                                enc = Some((codec::make_enc(api, k, r, size, work).map_err(|e| format!("new with work: {e:?}"))?, c));
+                                made.fetch_add(1, Ordering::Relaxed);
+                            }
+                        }
+                        // a checked round trip with the objects as they are
+                        if it % 8 == 7 {
+                            if let (Some((e, ec)), Some((d, dc))) = (enc.as_mut(), dec.as_mut()) {
+                                let (_, k, r, size) = *ec;
+                                let originals: Vec<Vec<u8>> = (0..k).map(|_| rng.bytes(size)).collect();
+                                for o in &originals {
+                                    e.add(o).map_err(|e| format!("add: {e:?}"))?;
+                                }
+                                let recovery = e.encode_obs(&[]).map_err(|e| format!("encode: {e:?}"))?.iter;
+                                // the churned decoder is reset to the encoder's configuration if
+                                // it is of the encoder's kind (same rate, so the same code);
+                                // otherwise a decoder of that kind takes over its working space
+                                if dc.0 == ec.0 {
+                                    d.reset(k, r, size).map_err(|e| format!("reset: {e:?}"))?;
+                                } else {
+                                    let old = std::mem::replace(d, codec::make_dec(codec::Api::Wrapper, 1, 1, 2, None).map_err(|e| format!("new: {e:?}"))?);
+                                    *d = codec::make_dec(ec.0, k, r, size, old.into_work()).map_err(|e| format!("new with work: {e:?}"))?;
+                                }
+                                *dc = *ec;
+                                let (oi, ri, _) = crate::gen::received_set(&mut rng, k, r);
+                                let order = crate::gen::add_order(&mut rng, &oi, &ri, true);
+                                let got = codec::decode_round(d.as_mut(), &order, &originals, &recovery, &[]).map_err(|e| format!("decode: {e:?}"))?;
+                                if got.iter != crate::mon_c01::expected(&originals, &oi) {
+                                    return Err("round trip on churned objects restores wrong shards".into());
+                                }
+                                rounds.fetch_add(1, Ordering::Relaxed);
+                                trail.push("round-ok".into());
+                            }
+                        }
+                        Ok(())
+                    });
+                    let failed = match res {
+                        Ok(Ok(())) => None,
+                        Ok(Err(m)) => Some(("C16:churn:error-or-wrong-result".to_string(), m)),
+                        Err(p) => Some((format!("C16:churn:{}", crate::util::panic_sig(&p)), p)),
+                    };
+                    if let Some((sig, m)) = failed {
+                        let tail: Vec<String> = trail.iter().rev().take(10).rev().cloned().collect();
+                        out.lock().unwrap().violate(sig, format!("thread {t} of {threads}, step {it}: {m}; last steps of this thread: {}", tail.join(" ")));
+                        stop.store(true, Ordering::Relaxed);
+                        // the objects may be in any state after a panic
+                        enc = None;
+                        dec = None;
+                        break;
+                    }
+                    if trail.len() > 64 {
+                        trail.drain(..32);
+                    }
+                }
+            });
+        }
+    });
+    let mut o = out.into_inner().unwrap();
+    o.evals = made.load(Ordering::Relaxed) + resets.load(Ordering::Relaxed) + rounds.load(Ordering::Relaxed);
+    o.add("churn: objects constructed concurrently (with and without handed-over working space)", made.load(Ordering::Relaxed));
+    o.add("churn: resets", resets.load(Ordering::Relaxed));
+    o.add("churn: drops", dropped.load(Ordering::Relaxed));
+    o.add("churn: steps with a working space of 1 MiB or more", big.load(Ordering::Relaxed));
+    o.add("churn: checked round trips", rounds.load(Ordering::Relaxed));
+    o.tag("lifecycle-churn");
+    for i in 0..made.load(Ordering::Relaxed).min(100_000) {
+        o.nontrivial.push(mix(0x3161, i));
+    }
+    o.sample = Some(jobj(&[("lifecycle_churn", jstr(&format!("{threads} threads x up to {iters} steps (new / reset / drop / hand-over / checked round trip)")))]));
+    agg.lock().unwrap().absorb("churn", 0, o);
+}
+
 pub fn run(cfg: &RunCfg, agg: &Mutex<Agg>) {
     migration_stage(cfg, agg);
+    churn_stage(cfg, agg);
     if !cfg.stage_enabled("schedules") {
         return;
     }
